@@ -65,8 +65,61 @@ class Class:
         return "<Class %s>" % self.name
 
 
+def _ctxmgr_shape(fdef):
+    """@contextmanager def f(...): try: yield  except ...: ...   ->  the Try node, else None"""
+    if not any((isinstance(d, ast.Name) and d.id == "contextmanager") or (isinstance(d, ast.Attribute) and d.attr == "contextmanager") for d in fdef.decorator_list):
+        return None
+    body = [n for n in fdef.body if not (isinstance(n, ast.Expr) and isinstance(n.value, ast.Constant))]
+    if len(body) == 1 and isinstance(body[0], ast.Try) and not body[0].orelse and not body[0].finalbody and len(body[0].body) == 1 \
+            and isinstance(body[0].body[0], ast.Expr) and isinstance(body[0].body[0].value, ast.Yield) and body[0].body[0].value.value is None:
+        return body[0]
+    return None
+
+
+class _WithDesugar(ast.NodeTransformer):
+    """with cm(args): BODY   where cm is a generator context manager of the shape above   ->   try: BODY  except ...: (handlers of cm, parameters bound)
+    The two are the same program for that shape (PEP 343); every engine then sees an ordinary try statement."""
+    def __init__(self, ctxmgrs):
+        self.ctxmgrs = ctxmgrs
+
+    def visit_With(self, node):
+        self.generic_visit(node)
+        if len(node.items) != 1 or node.items[0].optional_vars is not None or not isinstance(node.items[0].context_expr, ast.Call):
+            return node
+        call = node.items[0].context_expr
+        name = call.func.id if isinstance(call.func, ast.Name) else (call.func.attr if isinstance(call.func, ast.Attribute) else None)
+        fdef = self.ctxmgrs.get(name)
+        if fdef is None or any(k.arg is None for k in call.keywords):
+            return node
+        tr = _ctxmgr_shape(fdef)
+        params = [a.arg for a in fdef.args.args if a.arg not in ("self", "cls")]
+        defaults = fdef.args.defaults
+        mapping = dict(zip(params[len(params) - len(defaults):], defaults)) if defaults else {}
+        for p_, a in zip(params, call.args):
+            mapping[p_] = a
+        for k in call.keywords:
+            mapping[k.arg] = k.value
+        if tr is None or any(p_ not in mapping for p_ in params):
+            return node
+        import copy
+
+        class Sub(ast.NodeTransformer):
+            def visit_Name(self, n):
+                if isinstance(n.ctx, ast.Load) and n.id in mapping:
+                    return ast.copy_location(copy.deepcopy(mapping[n.id]), n)
+                return n
+        handlers = [Sub().visit(copy.deepcopy(h)) for h in tr.handlers]
+        new = ast.Try(body=node.body, handlers=handlers, orelse=[], finalbody=[])
+        ast.copy_location(new, node)
+        for h in handlers:
+            for x in ast.walk(h):
+                if not hasattr(x, "lineno"):
+                    ast.copy_location(x, node)
+        return ast.fix_missing_locations(new)
+
+
 class Module:
-    def __init__(self, rel, path):
+    def __init__(self, rel, path, ctxmgrs=None):
         self.rel = rel
         self.path = path
         self.short = os.path.splitext(os.path.basename(rel))[0]
@@ -75,6 +128,8 @@ class Module:
             self.tree = ast.parse(self.src, filename=path)
         except (OSError, SyntaxError, ValueError) as e:
             raise AnalysisError("cannot parse %s: %s" % (rel, e))
+        if ctxmgrs:
+            self.tree = _WithDesugar(ctxmgrs).visit(self.tree)
         self.classes = {}
         self.funcs = {}
         self.assigns = {}     # module-level simple assignments
@@ -110,11 +165,22 @@ class Repo:
             for f in sorted(fs):
                 if f.endswith(".py"):
                     rels.append(os.path.relpath(os.path.join(dp, f), self.root))
+        # generator context managers of the try / yield / except shape, by name (methods and functions): `with` blocks using them are desugared
+        ctxmgrs = {}
+        for rel in rels:
+            p = os.path.join(self.root, rel)
+            try:
+                t_ = ast.parse(open(p, encoding="utf-8").read())
+            except (OSError, SyntaxError, ValueError):
+                continue
+            for n_ in ast.walk(t_):
+                if isinstance(n_, ast.FunctionDef) and _ctxmgr_shape(n_) is not None:
+                    ctxmgrs[n_.name] = n_
         for rel in rels:
             p = os.path.join(self.root, rel)
             if not os.path.exists(p):
                 raise AnalysisError("source file %s missing" % rel)
-            self.modules[rel] = Module(rel, p)
+            self.modules[rel] = Module(rel, p, ctxmgrs)
         self.classes = {}
         self.funcs = {}        # qualified name -> Func
         for m in self.modules.values():
